@@ -242,7 +242,7 @@ func genFunction(prog *ssa.Program, cs *Contracts, fn *ssa.Function, fc *FuncCon
 	}
 	rst, vals := fr.run(st0)
 	for _, cl := range fc.Clauses {
-		if cl.Kind != "assertat" {
+		if cl.Kind != "assertat" && cl.Kind != "atinst" {
 			continue
 		}
 		fired := false
